@@ -21,6 +21,8 @@ type ccCase struct {
 	ID   string `json:"id"`
 	Orig string `json:"orig"`
 	Out  string `json:"out"`
+	// indices (among non-import declarations) of declarations that contain a rewritten site
+	Touched []int `json:"touched"`
 }
 
 type ccOut struct {
@@ -60,6 +62,17 @@ func fileInfo(src string) (decls []declInfo, header []string, all []string, err 
 	tf := fset.File(f.Pos())
 	pkgLine := tf.Line(f.Name.End())
 	used := map[*ast.Comment]bool{}
+	// gofmt inserts an empty "//" line between a doc comment and a directive; such
+	// empty line comments are layout, not comment text
+	for _, g := range f.Comments {
+		kept := g.List[:0]
+		for _, c := range g.List {
+			if strings.TrimSpace(c.Text) != "//" {
+				kept = append(kept, c)
+			}
+		}
+		g.List = kept
+	}
 	for _, g := range f.Comments {
 		for _, c := range g.List {
 			all = append(all, c.Text)
@@ -164,8 +177,12 @@ func runCommentCheck(path string) {
 				o.Skip = "number of declarations changed"
 				break
 			}
+			isTouched := map[int]bool{}
+			for _, t := range c.Touched {
+				isTouched[t] = true
+			}
 			for i := range a {
-				if a[i].canon != b[i].canon {
+				if a[i].canon != b[i].canon || isTouched[i] {
 					o.Touched++
 					continue
 				}
